@@ -248,11 +248,25 @@ public:
   }
 
   void operator|=(const array_smashing_t &other) override {
+    // The size environment of a value whose base domain is bottom is
+    // not bottom: joining it would drop the sizes of the other operand
+    // while its summaries survive in the base domain.
+    if (other.is_bottom()) {
+      return;
+    } else if (is_bottom()) {
+      *this = other;
+      return;
+    }
     m_last_access_env = m_last_access_env | other.m_last_access_env;
     m_base_dom |= other.m_base_dom;
   }
 
   array_smashing_t operator|(const array_smashing_t &other) const override {
+    if (is_bottom()) {
+      return other;
+    } else if (other.is_bottom()) {
+      return *this;
+    }
     return array_smashing_t(m_last_access_env | other.m_last_access_env,
                             m_base_dom | other.m_base_dom);
   }
@@ -268,6 +282,11 @@ public:
   }
 
   array_smashing_t operator||(const array_smashing_t &other) const override {
+    if (is_bottom()) {
+      return other;
+    } else if (other.is_bottom()) {
+      return *this;
+    }
     return array_smashing_t(m_last_access_env || other.m_last_access_env,
                             m_base_dom || other.m_base_dom);
   }
@@ -275,6 +294,11 @@ public:
   array_smashing_t
   widening_thresholds(const array_smashing_t &other,
                       const thresholds<number_t> &ts) const override {
+    if (is_bottom()) {
+      return other;
+    } else if (other.is_bottom()) {
+      return *this;
+    }
     return array_smashing_t(
         m_last_access_env.widening_thresholds(other.m_last_access_env, ts),
         m_base_dom.widening_thresholds(other.m_base_dom, ts));
